@@ -101,6 +101,7 @@ pub fn err_kind(e: &crate::api::E) -> &'static str {
         E::Invalid => "invalid",
         E::Bad(..) => "bad-codepoint",
         E::Undefined => "undefined-context",
+        E::Any => "any",
         E::CtxNotApplicable(..) => "context-rule-not-applicable",
         E::MissingRule(..) => "missing-context-rule",
         E::ProfileRuleNotApplicable => "profile-rule-not-applicable",
